@@ -1349,7 +1349,8 @@ class Atoms:
         self.assert_arrays_are_consistent_sizes()
 
     def pop(self, pos=-1):
-        del(self, pos)
+        # normalize negative indices since term reindexing compares raw index values
+        del self[[range(len(self))[pos]]]
 
     def __getitem__(self, i):
         idx = np.array(i, ndmin=1)
